@@ -8,7 +8,7 @@ import YaegiVerif.Generated.C15
      DECL  = (var NAMES LATE OPLATE INIT…)  NAMES = (a b …)  LATE = 1|0 (callee declared later)  OPLATE = 1|0 (comma-ok: map / channel operand declared later)  INIT = (label IDS)
            | (func NAME RECV RTYPE TPARAMS PARAMS RESULTS LABEL IDS LOCALS)   RECV = n | v | p (none, value, pointer)
            | (type NAME (field …))
-     IDS   = ((name 1|0) …)          1 = denotes the package-level object, 0 = a local / field key of that name
+     IDS   = ((name 1|0 [1|0]) …)    1 = denotes the package-level object, 0 = a local / field key of that name; third flag: a method expression T.m
      MAIN  = (label) | ()            AFTER = (label …)  what main's own calls log after that
    answer: class=… deps=… yorder=… ylog=… ilog=… regs=… syms=… gdeps=… gorder=… glog=… slog=…
      deps/gdeps  i:d,d;i:d…        (what getVarDependencies returns per specification of the list getVars builds / dependencies per unit)
@@ -26,7 +26,8 @@ open YaegiVerif YaegiVerif.VarInit YaegiVerif.Spec.InitOrder
 
 def parseIdent (s : Sexp) : Option Ident :=
   match s with
-  | .list [.atom n, f] => do let b ← f.bool?; some ⟨n, b⟩
+  | .list [.atom n, f] => do let b ← f.bool?; some ⟨n, b, false⟩
+  | .list [.atom n, f, m] => do let b ← f.bool?; let e ← m.bool?; some ⟨n, b, e⟩
   | _ => none
 
 def parseIds (s : Sexp) : Option (List Ident) :=
